@@ -5,6 +5,7 @@ CONSTANTS
   Procs = {"p1", "p2", "p3", "p4"}
   NoProc = "noproc"
   IdSpace = 65536
+  FirstId = 1
   LeakOnSendError = TRUE
 CONSTRAINT Mark
 CONSTRAINT Props
